@@ -22,6 +22,7 @@ import (
 	"math/big"
 	"os"
 	"strings"
+	"time"
 
 	logger "github.com/ElrondNetwork/elrond-go-logger"
 	"github.com/ElrondNetwork/elrond-go/config"
@@ -294,16 +295,39 @@ func scenarios() []scenario {
 			w.finalize(4)
 			return []int{3}
 		}, "checkpoint"},
+		// thorough-tier scenarios
+		{"checkpoint(root2), block, snapshot(root3) || block+prunes", func(w *world) []int {
+			prefix(w)
+			w.adb.SetStateCheckpoint(w.roots[2])
+			w.block(write{"S", "k1", "x"}, write{"T", "k1", "yy"}) // root 3
+			w.adb.SnapshotState(w.roots[3])
+			w.finalize(3)
+			w.block(write{"S", "k2", "yy"}) // root 4
+			w.finalize(4)
+			return []int{3}
+		}, "snapshot"},
+		{"snapshot(root2) || block, rollback (prune new root), block+prune", func(w *world) []int {
+			prefix(w)
+			w.adb.SnapshotState(w.roots[2])
+			w.block(write{"S", "k1", "x"}) // root 3, then rolled back
+			must(w.adb.RecreateTrie(w.roots[2]))
+			w.adb.CancelPrune(w.roots[2], data.OldRoot)
+			w.adb.PruneTrie(w.roots[3], data.NewRoot)
+			w.roots, w.refs = w.roots[:3], w.refs[:3]
+			w.block(write{"S", "k2", "yy"}, write{"T", "k1", "yy"}) // new root 3
+			w.finalize(3)
+			return []int{2}
+		}, "snapshot"},
 	}
 }
 
 func main() {
 	logger.SetLogLevel("*:NONE")
 	mc.Main("C10", "exploration", func(c *mc.Ctx) {
-		bound := c.Pick(1, 2)
+		bound := 1
 		c.StopOnViolation = true
-		c.Rule = fmt.Sprintf("3 scenarios (snapshot, checkpoint, snapshot then checkpoint of a later root) in which the block-processing thread commits 2 further blocks and prunes after each while the snapshot worker, the storage manager's process loop and the data-trie snapshot requests run as scheduled threads; scheduling points = every main-DB operation, the storage manager's mutex operations, thread start and visible channel waits; all schedules with <= %d preemptions; non-trivial = schedules in which a DB Remove (prune) ran or a prune request arrived while the snapshot threads were still running", bound)
-		c.Bound = fmt.Sprintf("preemption bound %d, horizon 20000 points", bound)
+		c.Rule = fmt.Sprintf("3 scenarios in the quick tier (snapshot; checkpoint; snapshot then checkpoint of a later root) and 2 more in the thorough tier (checkpoint then snapshot; snapshot racing with a rollback) in which the block-processing thread commits 2 further blocks and prunes after each while the snapshot worker, the storage manager's process loop and the data-trie snapshot requests run as scheduled threads; scheduling points = every main-DB operation, the storage manager's mutex operations, thread start and visible channel waits; all schedules with <= %d preemptions; non-trivial = schedules in which a DB Remove (prune) ran or a prune request arrived while the snapshot threads were still running", bound)
+		c.Bound = fmt.Sprintf("preemption bound %d (every scenario), horizon 20000 points", bound)
 		c.Assumptions = []string{"channel buffers (leaves channel 100, snapshot request queue 10) never fill in these scenarios, so sends never block",
 			"the goroutines and blocking receives of accountsDB.go / trieStorageManager.go are made visible to the scheduler by exact-text overlay substitutions (ovl/subst/c10_*.txt); the build is refused if a pattern no longer matches",
 			"production buffer sizes; snapshot databases are in-memory and not scheduling points (they are private to the snapshot threads)"}
@@ -325,9 +349,23 @@ func main() {
 		}
 		for si, sc := range scenarios() {
 			sc := sc
+			if c.Quick() && si >= 3 {
+				continue
+			}
 			st := mc.Explore(c, bound, 1, func(ch *mc.Chooser) { runOne(c, si, sc, ch) })
 			c.Count("schedules["+sc.Name+"]", st.Executions)
 			c.Count("max_points["+sc.Name+"]", int64(st.MaxPoints))
+		}
+		if !c.Quick() && c.NumViolations() == 0 {
+			// deeper, time-boxed: preemption bound 2 on the first scenario (its full space is
+			// ~10^7 schedules; whatever fits in the budget is explored depth-first and the cap
+			// is reported, bound 1 above stays the completed bound)
+			sc := scenarios()[0]
+			saved := c.Deadline
+			c.Deadline = time.Now().Add(12 * time.Minute)
+			st := mc.Explore(c, 2, 1, func(ch *mc.Chooser) { runOne(c, 0, sc, ch) })
+			c.Deadline = saved
+			c.Count("schedules_bound2_timeboxed["+sc.Name+"]", st.Executions)
 		}
 	})
 }
